@@ -3,6 +3,7 @@ import Qryn.LogQL.PlannerMetric
 import Qryn.LogQL.SemMetric
 import Qryn.LogQL.PostMetric
 import Qryn.LogQL.OpsText
+import Qryn.LogQL.Supported
 namespace Driver.C08
 open Qryn Qryn.Sql Qryn.LogQL Driver.C07
 
@@ -147,8 +148,13 @@ def handle : List String → Option String
     let d ← db? rest'
     let plan := (evalSelA oracles (d.toDbM c) (planMetric c q)).map normRow
     let spec := evalMetric oracles c d q
-    if plan == spec then some s!"ok {plan.length}"
-    else some s!"diff {showTable plan} {showTable spec}"
+    -- the label says whether `Qryn.C08.plan_metric_correct` applies to this very case (same predicates as the theorem)
+    let cls := s!"{planClass oracles c d q} {stageCount c q}"
+    -- unwrapped range aggregations: the theorem's right-hand side is the direct reading over the entries in timestamp order
+    let specTs := evalMetric oracles c (sortedDb c.toCtx d) q
+    if supportedU q && plan != specTs then some s!"diff {showTable plan} {showTable specTs} theorem-rhs-differs:{shapeName q} {stageCount c q}"
+    else if plan == spec then some s!"ok {plan.length} {cls}"
+    else some s!"diff {showTable plan} {showTable spec} {cls}"
   | "c08post" :: fromNs :: toNs :: step :: d :: es :: [] => do
     let es ← list? mentry? es
     let (f, t, st, dd) := (← fromNs.toInt?, ← toNs.toInt?, ← step.toInt?, ← d.toInt?)
